@@ -181,6 +181,8 @@ class Harness:
                     return
                 h.hlog.append((tag, float(t), type(t).__name__, ev.priority if ev is not None else None))
                 h.timeline.append(("h", tag, float(t), ev.priority if ev is not None else None))
+                if h.sleeper:
+                    h.sleeper()
                 if h.pause_at is not None and h.exec_count == h.pause_at:
                     g = h.pause_gate
                     g.reached.set()
@@ -197,6 +199,7 @@ class Harness:
                     cb(event.event_type.name, event)
 
         self.on_construct = None
+        self.sleeper = None
         self.on_notify = None
         self.on_action = None
         self.model = ProgModel(self.sim)
@@ -273,8 +276,9 @@ class Harness:
                 ev = sim.schedule_event_rel(time_value(self.prog, d) if self.prog["clock"] != "int" else int(d),
                                             model, "h", a[4], tag=a[5])
                 self.events[a[5]] = ev
-            elif k == "fire":
-                self.producers[a[1]].fire(self.etypes[a[1]], a[2])
+            elif k == "fanfire":
+                self.fan_count += 1
+                self.fan_producer.fire(self.fan_types[a[1]], self.fan_count)
             elif self.on_action:
                 self.on_action(model, a, parent)
 
@@ -293,6 +297,40 @@ class Harness:
         if not hasattr(self, "etypes"):
             self.etypes = {}
         h = self
+        # pub/sub fan-out owned by the model: listeners subscribed in the listed order, scripts run inside notify
+        fan = self.prog.get("fanout")
+        if fan:
+            self.fan_producer = EventProducer()
+            self.fan_count = 0
+            if not hasattr(self, "fan_types"):
+                self.fan_types = {}
+            for tname, listeners in fan.items():
+                if tname not in self.fan_types:
+                    _etype_counter[0] += 1
+                    self.fan_types[tname] = EventType(f"verif_fan_{_etype_counter[0]}")
+
+                class FanListener(EventListener):
+                    def __init__(self, tname, spec):
+                        self.tname, self.spec, self.n = tname, spec, 0
+
+                    def notify(self, event):
+                        self.n += 1
+                        h.timeline.append(("l", self.tname, self.spec["name"], event.content))
+                        if h.sleeper:
+                            h.sleeper()
+                        for a in self.spec["script"]:
+                            if a[0] == "draw":
+                                h.timeline.append(("d", self.spec["name"], h.streams[a[1]].next_float().hex()))
+                            elif a[0] == "schedrel":
+                                d = h._draw(a[1], "DistExponential", [1.0])
+                                tag = f"{self.spec['name']}_{self.tname}_{self.n}"
+                                ev = sim.schedule_event_rel(time_value(h.prog, d) if h.prog["clock"] != "int" else int(d),
+                                                            model, "h", a[2], tag=tag)
+                                h.events[tag] = ev
+                            elif a[0] == "obs":
+                                h._observe(model, a)
+                for spec in listeners:
+                    self.fan_producer.add_listener(self.fan_types[tname], FanListener(tname, spec))
         for sp in self.prog.get("stats", []):
             key, kind = sp["key"], sp["kind"]
             cls = {"counter": S.SimCounter, "tally": S.SimTally, "wtally": S.SimWeightedTally, "persistent": S.SimPersistent}[kind]
